@@ -27,15 +27,19 @@ func init() {
 			"gen.Writer":               "stub: recording writer (sequence of (filename, sha256(content)))",
 			"Go map iteration order":   "simulated: per site and per generation a tape-drawn policy (ascending, descending, rotation, seeded shuffle varying per execution); every produced order is one the Go spec permits",
 			"wall clock":               "simulated: tape-chosen epoch (1970..2262) and jump per reading (0ns..40 years), never backwards",
+			"process environment":       "simulated per generation from the tape: PATH (inherited / empty / fake gofmt, goimports, clang-format, prettier that visibly alter their input, ahead of the inherited PATH), working directory (inherited / grammar's directory / root), LANG, LC_ALL and TZ; HOME, XDG_CACHE_HOME, XDG_CONFIG_HOME and TMPDIR point into a directory that lives exactly as long as the run, so files the generator leaves in the user's directories are part of the run's history and of nothing else",
+			"gen.Options":               "default, except in the overlay-first history shape, whose first generation runs with IncludeDirs = a template overlay redefining the file header",
 			"process / earlier history": "a run is a sequence of 1..5 generations in one fresh child process (so the history is exactly what the tape says), compared with references produced by other fresh processes; GOMAXPROCS 1, 4 or 16 per worker",
 			"goroutine scheduling":     "none exists on this path (the rewriter fails closed, exit 2, if a go statement, select, math/rand or os.Getenv appears there)",
 		},
 		rule: "One run = a history of 1..5 generations (shipped grammars incl. rarely js, testing/{cpp,ts} grammars, compiler/testdata grammars with a target, synthetic grammars aimed at the instrumented sites), each under tape-drawn map-order policies for all rewritten range sites and a tape-drawn clock; oracle: the recorded (filename, sha256) sequence equals the fresh-process all-ascending reference, and for shipped grammars the content equals the committed files. " +
+			"History shapes also include: the same grammar first under a template overlay and then plainly (large grammars preferred), and a grammar whose output exceeds 6e6 bytes (the formatter's size threshold). Every generation runs under a tape-drawn process environment. " +
 			"A run is non-trivial when at least one map walk over >= 2 keys was actually permuted. distinct_nontrivial counts distinct (history, per-step set of (site, policy kind)) fingerprints among non-trivial runs; distinct_states counts distinct (site, key count, permutation fingerprint) triples.",
 		assumptions: []string{
 			"every order MapSeq yields is permitted by the Go specification for range over a map (snapshot of keys, deleted entries skipped, added entries not produced)",
 			"one policy per site per generation (shuffles re-seeded per execution), not an independent choice per execution",
 			"references come from the instrumented build with every map ascending; an un-instrumented natural-order run in a fresh process must agree with them (fidelity check) or the check exits 2",
+			"the grammar path handed to the generator is part of the request and is held fixed (absolute): the tree itself embeds it verbatim in cc #line directives, so output that varies with the spelling of the path is not counted as nondeterminism",
 			"sampling, not proof",
 		},
 	}
@@ -113,7 +117,7 @@ func detRefs(bin, setupPath string, pool []detPool, par int) (map[string]*detRef
 			defer wg.Done()
 			defer func() { <-sem }()
 			cmd := exec.Command(bin, "-ref", p.ID)
-			cmd.Env = append(os.Environ(), "ZZ_DETSIM_SETUP="+setupPath)
+			cmd.Env = append(os.Environ(), "ZZ_DETSIM_SETUP="+setupPath, "ZZ_DETSIM_SCRATCH="+filepath.Dir(setupPath))
 			out, err := cmd.Output()
 			mu.Lock()
 			defer mu.Unlock()
@@ -201,6 +205,17 @@ func prepareDet(cfg *config) ([]string, []string, map[string]any, error) {
 		return nil, nil, nil, err
 	}
 	pool = append(pool, composed...)
+	// a grammar whose generated lexer.go is larger than any shipped file (6.1 MB): size
+	// thresholds on the post-processing path (FormatGo has one) are crossed only here
+	hugeDir := filepath.Join(cfg.scratch, "detsim-huge")
+	if err := os.MkdirAll(hugeDir, 0o755); err != nil {
+		return nil, nil, nil, err
+	}
+	hugePath := filepath.Join(hugeDir, "huge.tm")
+	if err := os.WriteFile(hugePath, []byte(hugeGrammar()), 0o644); err != nil {
+		return nil, nil, nil, err
+	}
+	pool = append(pool, detPool{ID: "synthetic/huge-output", Path: hugePath, Heavy: true})
 	var sites []string
 	var wantProbes []string
 	for _, s := range rw.sites {
@@ -264,9 +279,20 @@ func prepareDet(cfg *config) ([]string, []string, map[string]any, error) {
 	if len(rw.unowned) > 0 {
 		info["cannot_vouch"] = rw.unowned
 	}
-	engines["detsim"].probes = append(wantProbes, "generation-with-history", "committed-files-compared", "map-order-permuted", "clock-jump")
+	engines["detsim"].probes = append(wantProbes, "generation-with-history", "committed-files-compared", "map-order-permuted", "clock-jump", "environment-varied", "generation-under-template-overlay", "twin-execution-compared")
 	// every run in a fresh child process: the only history a run sees is the one its tape describes
-	return []string{bin, "-isolate"}, []string{"ZZ_DETSIM_SETUP=" + setupPath}, info, nil
+	return []string{bin, "-isolate"}, []string{"ZZ_DETSIM_SETUP=" + setupPath, "ZZ_DETSIM_SCRATCH=" + cfg.scratch}, info, nil
+}
+
+func hugeGrammar() string {
+	var sb strings.Builder
+	sb.WriteString("language huge(go);\n\nlang = \"huge\"\npackage = \"github.com/inspirer/textmapper/zzverif/huge\"\n\n:: lexer\n\n")
+	sb.WriteString("space: /[ \\t\\r\\n]+/ (space)\nid: /[a-z]+/\n{\n")
+	for sb.Len() < 6_100_000 {
+		sb.WriteString("_   =   1+2\n") // valid Go that a formatter would rewrite
+	}
+	sb.WriteString("}\n")
+	return sb.String()
 }
 
 var langHeaderRe = regexp.MustCompile(`(?m)^language\s+(\S+?)\((\w+)\)`)
